@@ -3,6 +3,7 @@ package pure
 import (
 	"bytes"
 	"fmt"
+	"strings"
 	"testing"
 
 	"github.com/henrylee2cn/erpc/v6/socket"
@@ -278,4 +279,85 @@ func TestC12CorruptionExhaustive(t *testing.T) {
 		}
 	}
 	rec.SetExhaustive()
+}
+
+// TestC12PipeReuse: a pipe object is reused (Reset / Append / AppendFrom) the way pooled
+// messages reuse theirs; what it reports and what it does always follow its current filters.
+func TestC12PipeReuse(t *testing.T) {
+	rec := vt.NewRec(t, "C12", "pipe-reuse", "one XferPipe object driven through 2-6 steps {Reset then Append(ids), Append(more ids), AppendFrom(another pipe), Reset} over the registered filters, with IDs()/Len()/Names()/Range() read after every step (so cached views would be built) and a payload packed by the reused pipe unpacked by a fresh pipe built from the model's id list (and the other way round); oracle: the reported ids equal the model list after every step and OnUnpack(OnPack(x)) == x across the two pipes; non-trivial = two steps leave pipes of equal length and different filters; distinct by step list")
+	rapid.Check(t, func(t *rapid.T) {
+		vt.Init()
+		p := xfer.NewXferPipe()
+		var model []byte
+		n := rapid.IntRange(2, 6).Draw(t, "steps")
+		var hist []string
+		lens := map[int]string{}
+		nt := false
+		for i := 0; i < n; i++ {
+			ids := rapid.SliceOfN(rapid.SampledFrom(vt.RegisteredXfer), 0, 3).Draw(t, "ids")
+			switch op := rapid.SampledFrom([]string{"reset+append", "reset+append", "append", "appendfrom", "reset"}).Draw(t, "op"); op {
+			case "reset+append":
+				p.Reset()
+				if err := p.Append(ids...); err != nil {
+					t.Fatalf("Append(%q): %v", ids, err)
+				}
+				model = append([]byte(nil), ids...)
+				hist = append(hist, fmt.Sprintf("reset+append(%q)", ids))
+			case "append":
+				if len(model)+len(ids) > 255 {
+					continue
+				}
+				if err := p.Append(ids...); err != nil {
+					t.Fatalf("Append(%q): %v", ids, err)
+				}
+				model = append(model, ids...)
+				hist = append(hist, fmt.Sprintf("append(%q)", ids))
+			case "appendfrom":
+				p.AppendFrom(mkPipe(t, ids))
+				model = append(model, ids...)
+				hist = append(hist, fmt.Sprintf("appendfrom(%q)", ids))
+			default:
+				p.Reset()
+				model = nil
+				hist = append(hist, "reset")
+			}
+			if prev, ok := lens[len(model)]; ok && prev != string(model) {
+				nt = true
+			}
+			lens[len(model)] = string(model)
+			// the views a protocol reads
+			if got := p.IDs(); !bytes.Equal(got, model) {
+				t.Fatalf("after %v: IDs() = %q, the pipe was built from %q", hist, got, model)
+			}
+			if p.Len() != len(model) || len(p.Names()) != len(model) {
+				t.Fatalf("after %v: Len() = %d, Names() = %v, model has %d filters", hist, p.Len(), p.Names(), len(model))
+			}
+			var ranged []byte
+			p.Range(func(idx int, f xfer.XferFilter) bool { ranged = append(ranged, f.ID()); return true })
+			if !bytes.Equal(ranged, model) {
+				t.Fatalf("after %v: Range yields %q, model %q", hist, ranged, model)
+			}
+			pay := genPayload(t, 300)
+			packed, err := p.OnPack(append([]byte(nil), pay...))
+			if err != nil {
+				t.Fatalf("after %v: OnPack: %v", hist, err)
+			}
+			got, err := mkPipe(t, model).OnUnpack(append([]byte(nil), packed...))
+			if err != nil || !bytes.Equal(got, pay) {
+				t.Fatalf("after %v: a fresh pipe %q cannot undo what the reused pipe packed: err=%v equal=%v", hist, model, err, bytes.Equal(got, pay))
+			}
+			packed2, err := mkPipe(t, model).OnPack(append([]byte(nil), pay...))
+			if err != nil {
+				t.Fatalf("OnPack on a fresh pipe %q: %v", model, err)
+			}
+			got2, err := p.OnUnpack(append([]byte(nil), packed2...))
+			if err != nil || !bytes.Equal(got2, pay) {
+				t.Fatalf("after %v: the reused pipe cannot undo what a fresh pipe %q packed: err=%v equal=%v", hist, model, err, bytes.Equal(got2, pay))
+			}
+		}
+		rec.Case(strings.Join(hist, ";"), nt, fmt.Sprintf("steps=%d", len(hist)))
+		if rec.WantSample() && nt {
+			rec.Sample(hist)
+		}
+	})
 }
